@@ -761,6 +761,7 @@ class World:
         return s
 
     def live(self): return [s for s in self.sims.values() if not s.dead and s.identifier not in self.net.down]
+    def sims_by_ident(self, ident): return next(s for s in self.sims.values() if s.identifier == ident and not s.dead)
 
     def go_down(self, s, why):
         _drop_subscriptions(s)
@@ -1199,6 +1200,7 @@ def _schedule(w, rnd, cfg, kw):
         t_quiet = T[0]
         _run_until(w, rnd, ks, T[0] + quiet * PERIOD, boot_at, [], [], [], [], budget + 6000)
         margin = (quiet - 12) * PERIOD
+        _judge_parked(w, margin)
         for s in w.live():
             if not s.started or getattr(s, 'last_tick', 0) < T[0] - 2 * PERIOD: continue
             stname = s.fsm.state.name
@@ -1221,6 +1223,42 @@ def _schedule(w, rnd, cfg, kw):
                     w.finding(f'C10:free:job-never-ends:{nm}{why}', f'instance {s.k}: the {nm} still reports jobs in progress {(T[0] - s.last_request) // PERIOD} ticks after '
                               f'its last request ({sorted(cmdr.get_application_job_names())}); pending: ' + '; '.join(
                                   f'{c.process.namespec} on {c.identifier} (seen {s.context.instances[c.identifier].state.name if c.identifier else None})' for c in cmds))
+
+
+def _judge_parked(w, margin):
+    """ C08 on the closed loop: once disturbances have stopped, every live, mutually reachable, non-isolated instance is back in the state of
+        its Master - OPERATION, or CONCILIATION - and nobody is parked in OFF / SYNCHRONIZATION / ELECTION / DISTRIBUTION; provided the
+        synchronisation condition can be met and the failure strategy is not SHUTDOWN (the preconditions of the statement). """
+    live = [s for s in w.live() if s.started and getattr(s, 'last_tick', 0) >= T[0] - 2 * PERIOD]
+    if not live or len(live) != len(w.live()): return
+    alive = {s.identifier for s in live}
+    for s in live:
+        if s.options.supvisors_failure_strategy.name == 'SHUTDOWN': return
+        seen = {i for i, st in s.context.instances.items() if st.state.name == 'RUNNING'}
+        if seen != alive: return                    # not mutually seen RUNNING (isolated, or not re-admitted)
+        so = [x.name for x in s.options.synchro_options]
+        if 'TIMEOUT' not in so:
+            ok = []
+            if 'LIST' in so: ok.append(alive == set(s.mapper.instances))
+            if 'STRICT' in so: ok.append(set(s.mapper.initial_identifiers) <= alive)
+            if 'CORE' in so: ok.append(bool(s.mapper.core_identifiers) and set(s.mapper.core_identifiers) <= alive)
+            if not any(ok): return                  # the synchronisation condition cannot be met (USER alone needs a user action)
+    states = {s.identifier: s.fsm.state.name for s in live}
+    if set(states.values()) & {'RESTARTING', 'SHUTTING_DOWN', 'FINAL'}: return
+    # jobs still in progress (a wait_exit program that never exits, a program that crashes and is restarted for ever: process failures
+    # have not stopped) keep the Master where it is by design; a job that never ends for another reason is C10's judge
+    if any(s.starter.in_progress() or s.stopper.in_progress() or s.last_request > T[0] - margin for s in live): return
+    for s in live:
+        st = states[s.identifier]; m = s.state_modes.master_identifier
+        if s.state_since > T[0] - margin: continue
+        if st in ('OFF', 'SYNCHRONIZATION', 'ELECTION', 'DISTRIBUTION'):
+            # attribution: the decision of a Slave is the state of its Master; FiniteStateMachine.set_state refuses it when the table has no such edge
+            why = f':master-in-{states[m]}' if m in states and m != s.identifier else ''
+            w.finding(f'C08:free:parked:{st}{why}', f'instance {s.k} has been in {st} for {(T[0] - s.state_since) // PERIOD} ticks of the quiet phase (its Master: '
+                      f'{m or "none"} in {states.get(m, "-")}; starter in progress {s.starter.in_progress()}, stopper {s.stopper.in_progress()})')
+        elif m in states and states[m] != st and w.sims_by_ident(m).state_since <= T[0] - margin:
+            w.finding(f'C08:free:not-in-master-state:{st}:master-in-{states[m]}', f'instance {s.k} in {st}, its Master {m} in {states[m]}, both for more than '
+                      f'{margin // PERIOD} ticks of the quiet phase')
 
 
 def _run_until(w, rnd, ks, end, boot_at, fault_times, rpc_times, manual_times, forged_times, budget):
